@@ -45,7 +45,7 @@ func Run(cfg Config) int {
 		seed, _ = strconv.Atoi(v)
 	}
 	if cfg.Timeout == 0 {
-		cfg.Timeout = 10
+		cfg.Timeout = 15
 		if cfg.Tier == "thorough" {
 			cfg.Timeout = 60
 		}
